@@ -289,6 +289,17 @@ pub struct Nested {
 	arr: [i16; 3],
 }
 
+/// large data: sequences and maps past 256 elements, keys and strings past the inline capacities, a long string
+#[derive(Serialize, Deserialize, PartialEq, Debug, Clone)]
+pub struct Big {
+	v: Vec<u16>,
+	m: BTreeMap<String, u8>,
+	s: String,
+	ids: BTreeMap<u64, String>,
+	t: Vec<(u8, Option<bool>)>,
+	e: Vec<E>,
+}
+
 fn gen_string(rng: &mut Rng) -> String {
 	let mut s = String::new();
 	for _ in 0..rng.below(6) {
@@ -562,6 +573,17 @@ pub fn record(args: &Args) {
 				}
 			};
 			lines.push(ev);
+		}
+		if want("typed") && i == 1 {
+			let big = Big {
+				v: (0..300).map(|j| (j * 219 % 65536) as u16).collect(),
+				m: (0..300).map(|j| (format!("key-number-{j:05}-{}", gen_string(&mut rng)), (j % 256) as u8)).collect(),
+				s: (0..1000).map(|j| if j % 37 == 0 { '\u{1f600}' } else if j % 11 == 0 { '\u{e9}' } else { (b'a' + (j % 26) as u8) as char }).collect(),
+				ids: (0..70).map(|j| (u64::MAX - j * 1_000_003, format!("{j}"))).collect(),
+				t: (0..260).map(|j| ((j % 256) as u8, [None, Some(true), Some(false)][j % 3])).collect(),
+				e: (0..40).map(|_| gen_e(&mut rng, 1)).collect(),
+			};
+			lines.push(typed_event("Big", &big));
 		}
 		let numclass = if i % 3 == 2 { 1 } else { 0 };
 		if want("value_ser") {
